@@ -27,6 +27,7 @@ func init() {
 			{Name: "structured-inputs-every-mtu", Tiers: "qt", ShardDepth: 2, Run: c08MTUSweep},
 			{Name: "call-histories", Tiers: "qt", ShardDepth: 3, Run: c08Histories},
 			{Name: "long-histories-and-large-inputs", Tiers: "qt", ShardDepth: 3, Run: c08Long},
+			{Name: "steady-streams-of-equal-sized-inputs", Tiers: "qt", ShardDepth: 3, Run: c08Steady},
 		},
 	})
 }
@@ -398,4 +399,91 @@ func c08Long(c *mc.Ctx) {
 		c.Notef("%s mtu=%d history %s", cfg.name, mtu, hxs(inputs))
 	}
 	c08Run(c, cfg, mtu, inputs)
+}
+
+// c08Sized builds one input of about n bytes for a codec family.
+func c08Sized(family string, n int, seed byte) []byte {
+	switch family {
+	case "h264":
+		return ref.AnnexB([][]byte{ref.H264Unit(1, 2, maxI(n, 2), seed)}, []int{4})
+	case "h265":
+		return ref.AnnexB([][]byte{ref.H265Unit(1, 0, 1, maxI(n, 2), seed)}, []int{4})
+	case "vp9":
+		return (&ref.VP9FrameHeader{NonKey: true, ShowFrame: true}).Encode(n, seed)
+	case "av1":
+		return ref.AV1Stream([]ref.OBU{{Type: 6, Payload: fill(n, seed)}}, seed%2 == 0)
+	}
+	return fill(n, seed)
+}
+
+var c08SteadySizes = []int{1, 2, 4, 8, 16, 32, 64, 128, 256, 512, 1024, 2048, 4096, 3, 20, 160, 960, 1275}
+
+// c08Steady feeds one instance a long run of distinct inputs of one size.
+func c08Steady(c *mc.Ctx) {
+	cfg := mc.From(c, c08Configs)
+	size := mc.From(c, c08SteadySizes)
+	mtu := 1200
+	if c.Bool() {
+		mtu = maxI(size, 8)
+	}
+	calls := 2*8192/size + 2
+	if calls < 40 {
+		calls = 40
+	}
+	if calls > 4200 {
+		calls = 4200
+	}
+	if cfg.family != "audio" && calls > 600 {
+		calls = 600
+	}
+	if c.Verbose() {
+		c.Notef("%s mtu=%d: %d inputs of size %d", cfg.name, mtu, calls, size)
+	}
+	a, b := cfg.mk(), cfg.mk()
+	type past struct{ frags, snap [][]byte }
+	var hist []past
+	check := func(k, from int) {
+		for j := from; j < len(hist); j++ {
+			if !equalAll(hist[j].frags, hist[j].snap) {
+				c.Failf("returned-fragment-changed", "%s mtu=%d, stream of %d-byte inputs: fragments returned by call %d changed by call %d: now %s, were %s", cfg.name, mtu, size, j, k, hxs(hist[j].frags), hxs(hist[j].snap))
+			}
+		}
+	}
+	returned := 0
+	for k := 0; k < calls; k++ {
+		in := c08Sized(cfg.family, size, byte(k*7+1))
+		bufA, bufB := clone(in), clone(in)
+		outA := a.Payload(uint16(mtu), bufA)
+		if !bytes.Equal(bufA, in) {
+			c.Failf("input-modified", "%s mtu=%d, stream of %d-byte inputs, call %d: Payload changed the caller's buffer", cfg.name, mtu, size, k)
+		}
+		outB := b.Payload(uint16(mtu), bufB)
+		c.Ops(2)
+		if !equalAll(outA, outB) {
+			c.Failf("retained-caller-memory", "%s mtu=%d, stream of %d-byte inputs, call %d: the instance whose earlier input buffers were overwritten gives %s, the twin %s", cfg.name, mtu, size, k, hxs(outA), hxs(outB))
+		}
+		for i, f := range outA {
+			if !cfg.opus && len(f) > mtu {
+				c.Failf("fragment-over-mtu", "%s mtu=%d, stream of %d-byte inputs, call %d: fragment %d has %d bytes", cfg.name, mtu, size, k, i, len(f))
+			}
+			if len(f) == 0 {
+				c.Failf("empty-fragment", "%s mtu=%d, stream of %d-byte inputs, call %d: fragment %d is empty", cfg.name, mtu, size, k, i)
+			}
+			if lenOverlap(f, bufA) {
+				c.Failf("fragment-aliases-input", "%s mtu=%d, stream of %d-byte inputs, call %d: fragment %d shares memory with the caller's buffer", cfg.name, mtu, size, k, i)
+			}
+		}
+		if cfg.opus && (len(outA) != 1 || !bytes.Equal(outA[0], in)) {
+			c.Failf("opus-passthrough", "stream of %d-byte inputs, call %d: got %s", size, k, hxs(outA))
+		}
+		hist = append(hist, past{outA, cloneAll(outA)})
+		scribble(bufA)
+		check(k, maxI(0, len(hist)-4))
+		returned += len(outA)
+	}
+	check(calls, 0)
+	if returned > 0 {
+		c.NonTrivial()
+	}
+	c.Outcome(fmt.Sprintf("%s steady frags/call=%d", cfg.name, minI(returned/calls, 4)))
 }
